@@ -11,7 +11,14 @@ fn main() -> anyhow::Result<()> {
 
 	// `<name>.pem` and `<name>.key.pem` of the two base names have to be four different files
 	let (cert, ca) = (&opts.cert_file_name, &opts.ca_file_name);
-	if cert == ca || *cert == format!("{ca}.key") || *ca == format!("{cert}.key") {
+	let outputs = [
+		format!("{cert}.key.pem"),
+		format!("{cert}.pem"),
+		format!("{ca}.key.pem"),
+		format!("{ca}.pem"),
+	]
+	.map(|name| lexical_path(&name));
+	if (0..4).any(|i| (0..i).any(|j| outputs[i] == outputs[j])) {
 		anyhow::bail!("--cert-file-name {cert:?} and --ca-file-name {ca:?} name the same file");
 	}
 
@@ -44,6 +51,22 @@ fn main() -> anyhow::Result<()> {
 	ca.serialize_pem().write(&opts.output, &opts.ca_file_name)?;
 
 	Ok(())
+}
+
+/// The components of a file name with `.` and empty components dropped and `name/..` resolved,
+/// and whether it is absolute: `./x.pem`, `x.pem` and `a/../x.pem` are the same file.
+fn lexical_path(name: &str) -> (bool, Vec<String>) {
+	let mut components: Vec<String> = Vec::new();
+	for component in name.split('/') {
+		match component {
+			"" | "." => {},
+			".." if components.last().is_some_and(|last| last != "..") => {
+				components.pop();
+			},
+			_ => components.push(component.to_owned()),
+		}
+	}
+	(name.starts_with('/'), components)
 }
 
 #[derive(Clone, Debug, Bpaf)]
